@@ -16,32 +16,66 @@ COMMON_NOTE = ("Trusted: rustc; Verus+Z3 and vstd's std specs (atomics havoc); K
                "payloads and history (arbitrary well-formed start state); they are never reported as unbounded in N.")
 
 # property -> (claimed?, level category, text, technique, design_ref, extra note)
+KT = "Kani contract harnesses on the real crate (pre/post over an abstraction function from an arbitrary well-formed state)"
 P = {
     "C01": (True, "proof",
-            "Contracts on the real ring operations: from an ARBITRARY well-formed queue state (symbolic 63-bit counters, positions, stale cache, payloads) "
-            "an accepted send appends exactly the sent instance under its count, a refused send hands the same instance back and changes nothing, a receive "
-            "returns payload[cursor] and advances the cursor by exactly one (clone for broadcast, the instance itself for move-out). By induction over "
-            "operations this is exactly-once per stream for every sequential history; index/tag algebra is proved for every ring size in Verus.",
-            "Verus contracts on extracted countedindex/ReadAttempt functions + Kani contract harnesses (pre/post over an abstraction function) on the real crate",
-            "DESIGN.md §4 (P, L2, L3, S1-S4), §5 C01"),
+            "Contracts on the real ring operations: from an ARBITRARY well-formed queue state (symbolic 63-bit counters, positions, stale cache, payloads) an accepted send appends exactly the sent instance under its count, a refused send hands the same instance back and changes nothing, a receive (try/blocking/view/poll) returns payload[cursor] and advances the cursor by exactly one; by induction exactly-once per stream for every sequential history. Under a budgeted environment of other senders/consumers acting between every two shared accesses the commit is a CAS from the observed count (plain store only for a sole consumer), a value is delivered iff exactly one commit succeeded and it is the value published under that count, a speculative read whose commit failed is forgotten. Index/tag algebra for every ring size in Verus.",
+            "Verus contracts on extracted countedindex/ReadAttempt functions + " + KT + " + rely/guarantee harnesses (environment moves + guarantee log)",
+            "DESIGN.md 4 (P, L2, L3, S1-S4, S7, S8, S12, I1, I2, I7), 5 C01, 14"),
     "C02": (True, "proof",
-            "The delivery order is the claim count: S-contracts show every accepted send takes the next count and every stream hands out payload[cursor] with "
-            "cursor moving +1; lemma_commit_advances / lemma_tag_names_count (Verus, all N) give uniqueness of the count a tag names.",
-            "Verus lemmas + Kani contract harnesses on the real crate", "DESIGN.md §5 C02"),
+            "The delivery order is the claim count: every accepted send takes the next count (claim = +1 from the observed value, by CAS unless sole sender: guarantee log), every stream hands out payload[cursor] with the cursor moving +1 after the tag for that count was seen; a tag names exactly one count of the window (Verus, all N).",
+            "Verus lemmas + " + KT + " + guarantee log", "DESIGN.md 5 C02"),
     "C03": (True, "proof",
-            "get_valid_wrap = next power of two (min 1) for all inputs (Verus + full-domain Kani twin); the writer's full test fires exactly at ring distance N "
-            "for every valid N (Verus bit-vector lemma); from an arbitrary well-formed state try_send_single/multi accept iff head - min position < N and never "
-            "overwrite an unconsumed slot (Kani, N in {1,2} quick, 4 thorough), including with a stale cached tail.",
-            "Verus contracts/lemmas (unbounded N) + Kani contract harnesses on the real crate", "DESIGN.md §5 C03"),
+            "get_valid_wrap = next power of two (min 1) for all inputs (Verus + full-domain Kani twin); the writer's full test fires exactly at ring distance N for every valid N (Verus bit-vector lemma); from an arbitrary well-formed state try_send_single/multi accept iff head - min position < N and never overwrite an unconsumed slot, also with a stale cached tail; under interference the window has room with respect to the TRUE minimum at the instant of the claim and the cache is never moved ahead of the slowest stream.",
+            "Verus contracts/lemmas (unbounded N) + " + KT + " + guarantee log", "DESIGN.md 5 C03"),
+    "C04": (True, "proof",
+            "The harness payload's Clone and the view closure yield to the environment in the middle and assert the value and its liveness are unchanged; shared broadcast receive under senders that wrap the ring and sibling consumers (pin protocol), sole-consumer view under wrapping senders, and on the writer side: no claim of a slot a consumer holds a validated pin on. Sequentially: value identity and liveness from any well-formed state.",
+            KT + " + rely/guarantee harnesses with a yielding payload", "DESIGN.md 5 C04"),
+    "C05": (True, "proof",
+            "Payload ledger (instance serials; Drop asserts live, flags double drop / drop of garbage): overwrite drops the old broadcast content exactly once, move-out hands over the instance, view destroys it exactly once after the closure, refused values come back live, teardown of the ring from an arbitrary final state drops exactly the payloads still owned (Drop for MultiQueue, both flavours), a failed commit forgets. Bounded native stand-ins add whole-API teardown histories.",
+            KT + " with a payload ledger", "DESIGN.md 5 C05"),
     "C06": (True, "proof",
-            "Quiescent part: from ANY well-formed state (which is what remains once in-flight operations have returned) sends are refused iff the model is full and "
-            "receives report Empty iff the stream is drained; every operation re-establishes well-formedness (no pin left, cache within [head-N, min]).",
-            "Kani contract harnesses on the real crate from arbitrary well-formed states", "DESIGN.md §5 C06"),
+            "Quiescent part: from ANY well-formed state (what remains once in-flight operations have returned) sends are refused iff the model is full and receives report Empty iff the stream is drained; every operation re-establishes well-formedness; under interference no pin is left behind on any path. The transient part (spurious answers only while another thread is mid-operation) is not decided.",
+            KT, "DESIGN.md 5 C06"),
+    "C07": (True, "proof",
+            "From a well-formed state with no sender: values first, then the end (Disconnected / Err / None / iterator end), and the state is unchanged by reporting it (so it is reported again); never while a sender is alive; under interference Disconnected is returned only when no sender is alive and the stream has consumed every accepted value (two-look race); dropping a sender decrements after its last send and notifies unconditionally.",
+            KT + " + rely/guarantee harness for the two-look race", "DESIGN.md 5 C07"),
+    "C08": (True, "proof",
+            "Safety decomposition only (liveness itself - scheduler fairness, parking_lot's condvar - is assumed): the wake-up test equals its specification on the full domain; each built-in strategy's wait returns exactly when the test was observed true and re-evaluates it after every pause (spin counts 0..2); BlockingWait sleeps only after testing under its lock and notify takes that lock; recv/recv_view re-try after every return of wait and enter it with (cursor, tag cell of the cursor's slot, writer counter), also when a sibling consumed in between; accepted send and sender drop notify.",
+            KT + " on wait strategies and blocking receives (scripted wake-up, environment)", "DESIGN.md 5 C08"),
+    "C09": (True, "proof",
+            "This is the sequential layer in full: every ring operation, handle operation (send, 4 receive forms, add_stream, clone, drop, unsubscribe), futures operation and the memory manager is under a pre/post contract against the reference model from an arbitrary well-formed state, so every finite single-threaded history answers like the model and does not panic (Kani checks every panic/overflow/pointer on the way). Constructors, thin wrappers, iterators and conversions are covered only by bounded native stand-ins (concrete histories per requested capacity 0..9).",
+            KT + "; bounded native stand-ins for wrappers/constructors", "DESIGN.md 5 C09"),
+    "C10": (True, "proof",
+            "Sequential contract of add_stream from an arbitrary well-formed state: the new stream is appended at exactly the parent's position with one consumer, every existing stream keeps its position object and position, log/cache/senders/slots untouched, old list retired. The concurrent part (publication racing with producers and with siblings of a shared parent) is NOT decided: the interference harness for add_stream was not built (see DESIGN 14).",
+            KT, "DESIGN.md 5 C10"),
+    "C11": (True, "proof",
+            "remove_reader / drop / unsubscribe from an arbitrary well-formed state: the last handle removes exactly its stream from the published list (others keep order, position object, position), a non-last handle only lowers the count, unsubscribe returns true exactly for the last handle, the no-reader flag is raised exactly when the list becomes empty; from the post-state the send contract accepts iff the remaining minimum allows it. Concurrent scan-vs-removal is not decided.",
+            KT, "DESIGN.md 5 C11"),
+    "C12": (True, "proof",
+            "Clone/Drop post-states re-establish 'single-writer mode only with one sender' and 'sole-consumer mode only with one consumer' (both handles Multi after a clone); InnerSend::try_send switches back only at writer count 1; guarantee log under interference: a plain store to the claim counter / cursor / cached tail only when no other sender / consumer exists.",
+            KT + " + guarantee log", "DESIGN.md 5 C12"),
+    "C13": (True, "proof",
+            "With the no-reader flag set try_send returns Disconnected(same instance) and writes nothing; the flag is raised exactly when the last stream is removed and epoch traffic never clears it (all 2^64 flag words); the Sink maps it to Err(SendError(same instance)) without parking; send_or_park returns a Disconnected at any attempt at once; dropping a futures receiver notifies the producer list after the removal.",
+            KT + " + full-domain Kani twin for the signal word", "DESIGN.md 5 C13"),
+    "C14": (True, "proof",
+            "Safety decomposition (executor fairness assumed). Caller side, from an arbitrary well-formed state: every path that makes progress possible for the other side takes the other side's wait-list lock (= runs notify) AFTER its state change - accepted send, value delivered by poll (x2) or by the direct methods, receiver drop, sender drop; a task that gets NotReady is parked exactly once. Callee side (FutWait alone): notify/notify_all drain the list and notify every parked task exactly once; park/send_or_park repeat their test under the list lock before parking (no lost wake-up).",
+            KT + " split caller/callee (modular)", "DESIGN.md 5 C14, 14"),
+    "C15": (True, "proof",
+            "start_send: Ready iff enqueued, NotReady(identical message) iff nothing enqueued and full, Err(identical message) iff no receiver; poll: Ready(Some(payload[cursor])) / Ready(None) only at the end and again afterwards / NotReady otherwise, also on a fresh never-wrapped queue; neither reaches a condition variable or loops beyond the configured spin counts (non-termination of poll is a violation); the direct try_recv/recv equal their plain counterparts and do not panic.",
+            KT + " (futures stub: assumed contract of the dependency)", "DESIGN.md 5 C15"),
+    "C16": (True, "proof",
+            "Epoch contract of the memory manager with symbolic epochs: free never deallocates the object it retires, the batch is deallocated exactly when every registered token announced the current epoch (each object once: allocation ledger), a new batch only after the previous one is gone; tokens start at the current epoch, flagged handles announce at the start of an operation; everything unlinked by add_stream/remove_reader is retired through the manager, never freed in place. ToFree::delete is replaced by a contract stand-in (assumed). Concurrent scans vs. reclamation are not decided.",
+            KT + " with an allocation ledger", "DESIGN.md 5 C16"),
+    "C17": (True, "proof",
+            "Allocation ledger: Drop for MultiQueue hands back ring, pin table and last stream list; the manager releases batch and waiting objects at teardown; every dropped handle unregisters its token (so the epoch scheme keeps turning: bounded waiting list); bounded native stand-ins: whole-API histories end with zero live allocations.",
+            KT + " with an allocation ledger; bounded native teardown histories", "DESIGN.md 5 C17"),
+    "C18": (True, "proof",
+            "From states in which the others are frozen anywhere (arbitrary pins, unpublished claims, stale cache) one try operation run alone returns within a fixed number (<= 24) of its own shared-memory operations and reaches no lock, condition variable, yield, sleep or wait strategy. compare_exchange_weak is modelled without spurious failure.",
+            "Kani harnesses with unwinding assertions and a step counter in the atomic shim", "DESIGN.md 5 C18"),
     "C19": (True, "other",
-            "Trait-bound obligations discharged by rustc's trait solver on generated probe items for all 12 handle types x {i32, Cell<i32>, Rc<i32>} x "
-            "{fn pointer, Box<dyn FnMut>}: Send exactly when the property says so, never Sync. A statically discharged precondition (the callee's `T: Send` "
-            "bound), not a Verus/Kani proof - hence level 'other'.",
-            "compile probes: rustc trait solver on generated positive/negative trait-bound items", "DESIGN.md §4 X, §5 C19"),
+            "Trait-bound obligations discharged by rustc's trait solver on generated probe items for all 12 handle types x {i32, Cell<i32>, Rc<i32>} x {fn pointer, Box<dyn FnMut>}: Send exactly when the property says so, never Sync. A statically discharged precondition (the callee's `T: Send` bound), not a Verus/Kani proof - hence level 'other'.",
+            "compile probes: rustc trait solver on generated positive/negative trait-bound items", "DESIGN.md 4 X, 5 C19"),
 }
 
 PENDING_REASON = "check not yet built in this round of work (planned, see DESIGN.md §5); nothing is claimed for it yet"
